@@ -36,6 +36,12 @@ fn main() {
         "parse-enum" => lexparse::parse_enum(&args[2..]),
         "parse-file" => lexparse::parse_file(&args[2..]),
         "parse-exprs" => lexparse::parse_exprs(&args[2..]),
+        "parse-debug" => {
+            let text = args[2].clone();
+            let toks = lexer::lex(&text);
+            let p = parser::parse_source_file(&toks, &text);
+            println!("{:?}", p.errors().len());
+        }
         "topo-replay" => topo_replay::main(&args[2..]),
         other => {
             eprintln!("unknown subcommand {}", other);
